@@ -33,10 +33,16 @@ pub struct HookState {
     pub seq: u64,
     pub log: Vec<Ev>,
     pub keep_log: bool,
+    /// events not logged because the per-case cap was reached / a spin-loop hook repeated
+    pub log_dropped: u64,
+    spin_logged: u32,
     pub shared_freed: bool,
     /// remote accesses to the Shared block announced after `exec.free_shared`
     pub shared_uaf: Vec<(usize, &'static str)>,
 }
+
+/// Upper bound of logged events per case.
+pub const LOG_CAP: usize = 20_000;
 
 static HS: OnceLock<Mutex<HookState>> = OnceLock::new();
 
@@ -101,7 +107,7 @@ pub fn account(site: &'static str, a: u64, b: u64, performed: bool) -> (usize, b
                 if let Some(&t) = h.st2task.get(&a) {
                     task = t;
                 } else if let Some(&t) = h.freed.get(&a) {
-                    h.uaf.push((t, site));
+                    if h.uaf.len() < 64 { h.uaf.push((t, site)); }
                     task = t;
                     bad = true;
                 }
@@ -109,12 +115,12 @@ pub fn account(site: &'static str, a: u64, b: u64, performed: bool) -> (usize, b
                 if let Some(&t) = h.hdr2task.get(&a) {
                     task = t;
                 } else if let Some(&t) = h.freed.get(&a) {
-                    h.uaf.push((t, site));
+                    if h.uaf.len() < 64 { h.uaf.push((t, site)); }
                     task = t;
                     bad = true;
                 }
                 if h.shared_freed && touches_shared(site) {
-                    h.shared_uaf.push((task, site));
+                    if h.shared_uaf.len() < 64 { h.shared_uaf.push((task, site)); }
                     bad = true;
                 }
             }
@@ -128,6 +134,16 @@ pub fn account(site: &'static str, a: u64, b: u64, performed: bool) -> (usize, b
 
 fn log_locked(h: &mut HookState, site: &'static str, a: u64, b: u64, task: usize) {
     h.seq += 1;
+    // bounded: hooks inside spin loops (wait_spin, push_retry and the load they go with) are logged only the
+    // first few times per case, and the whole log is capped
+    let spin = matches!(site, "exec.task.wait_spin" | "exec.remote.push_retry");
+    if spin {
+        h.spin_logged += 1;
+    }
+    if h.keep_log && ((spin && h.spin_logged > 16) || h.log.len() >= LOG_CAP) {
+        h.log_dropped += 1;
+        return;
+    }
     if h.keep_log {
         let seq = h.seq;
         h.log.push(Ev {
